@@ -238,6 +238,11 @@ func (nak *NesterAccountKeeper) SetAccount(account EthAccount) error {
 func (nak *NesterAccountKeeper) RemoveAccount(account EthAccount) {
 	prefixKey := append(nak.prefix, account.Address.Bytes()...)
 	nak.state.Delete(prefixKey)
+	// the balance lives in the native balance store: write the removed account's balance (zero after
+	// a self-destruct) through, otherwise the destroyed account keeps the funds it has just paid out
+	if account.Coins.Amount != nil {
+		_ = nak.balances.SetBalance(account.Address, account.Coins)
+	}
 }
 
 func (nak *NesterAccountKeeper) GetNonce(addr keys.Address) uint64 {
